@@ -3,7 +3,8 @@
 import json, os, shutil, subprocess, sys
 pid = sys.argv[1]
 base = sys.argv[2] if len(sys.argv) > 2 else '/repo'
-src = '/tmp/seed_%s_out' % pid
+src = os.environ.get('SEED_SRC') or '/tmp/seed_%s_out' % pid
+offset = int(os.environ.get('SEED_OFFSET', '0'))
 for k in sorted(os.listdir(src)):
     d = os.path.join(src, k)
     if not os.path.exists(os.path.join(d, 'patch.diff')):
@@ -13,11 +14,12 @@ for k in sorted(os.listdir(src)):
     print(pid, k, r.returncode, line)
     if r.returncode != 0:
         continue
-    dst = '/verif/seeded/%s-%s' % (pid, k)
+    dst = '/verif/seeded/%s-%s' % (pid, int(k) + offset)
     os.makedirs(dst, exist_ok=True)
     for f in ('patch.diff', 'demo.py'):
         shutil.copy(os.path.join(d, f), dst)
     meta = json.load(open(os.path.join(d, 'meta.json')))
+    meta['round'] = 2 if offset else 1
     meta['confirmed_by_coordinator'] = {'cmd': 'tools/verify_seed.sh (fresh worktree: demo on clean tree, git apply, full suite, demo on changed tree)',
                                         'result': line[0] if line else '', 'base_tree': base}
     json.dump(meta, open(os.path.join(dst, 'meta.json'), 'w'), indent=1)
